@@ -250,7 +250,7 @@ func TypeStress(intn func(int) int) string {
 	m := modes[intn(len(modes))]
 	op := []string{"+", "&"}[intn(2)]
 	lbl := []string{"l", "a", "z"}[intn(3)]
-	shape := intn(6)
+	shape := intn(8)
 	// base recursive (or not) type A and a partner B
 	switch shape {
 	case 0: // two isomorphic recursive types
@@ -272,8 +272,16 @@ func TypeStress(intn func(int) int) string {
 		default:
 			fmt.Fprintf(&sb, "type A = %sB\ntype B = %s%s{%s : A}\n", m, m, op, lbl)
 		}
-	default: // mutually recursive pair vs single recursive
+	case 5: // mutually recursive pair vs single recursive
 		fmt.Fprintf(&sb, "type A = %s%s{%s : B}\ntype B = %s%s{%s : A}\n", m, op, lbl, m, op, lbl)
+	default: // recursive types of period two, to be compared out of phase (a name never meets a name)
+		bin := []string{"*", "-*"}[intn(2)]
+		fmt.Fprintf(&sb, "type A = %s1 %s (1 %s A)\ntype B = %s1 %s (1 %s B)\n", m, bin, bin, m, bin, bin)
+		if shape == 7 {
+			fmt.Fprintf(&sb, "let f(x : %s1 %s B) : %sA = fwd self x\n", m, bin, m)
+			fmt.Fprintf(&sb, "let g(x : %s1 %s (1 %s (1 %s A))) : %sB = y : %s1 %s B <- new fwd self x; fwd self y\n", m, bin, bin, bin, m, m, bin)
+			return sb.String()
+		}
 	}
 	t1 := []string{"A", "B"}[intn(2)]
 	t2 := []string{"A", "B"}[intn(2)]
